@@ -32,7 +32,8 @@ func runC26(c *Ctx) {
 	c.rule(P, "fit", "stop test involves the next entry's size or leaves a margin >= one maximal entry + trailer", 2)
 	c.rule(P, "toosmall", "NFS3ERR_TOOSMALL is a reachable status of READDIR and READDIRPLUS", 2)
 	c.rule(P, "floor", "the client's count/maxcount is not silently raised to a floor", 0)
-	c.rule(P, "entry-size", "the stop test's estimate (Len + K + pad4(name)) covers the bytes the loop appends per entry plus the list trailer, minus the status word; sizes from the reply trace", 2)
+	c.rule(P, "toosmall-edge", "a NFS3ERR_TOOSMALL reply is reachable from the does-not-fit edge of the loop's stop test", 2)
+	c.rule(P, "entry-size","the stop test's estimate (Len + K + pad4(name)) covers the bytes the loop appends per entry plus the list trailer, minus the status word; sizes from the reply trace", 2)
 	c.rule(P, "cookie", "entry cookie = index+1; resume skips indices < cookie; eof = !stopped-for-size", 6)
 	ent, err := p.entrySet()
 	if err != nil {
@@ -81,6 +82,7 @@ func runC26(c *Ctx) {
 		} else if bound == nil {
 			c.ok(P, "fit", key, p.instrPos(stopIf), "the stop test accounts for the entry about to be added")
 			runC26EntrySize(c, h, name, stopIf)
+			runC26TooSmallEdge(c, h, name, stopIf)
 			// a floor that silently raises a small client limit defeats the limit for those requests
 			if fl := floorConst(boundForFloor); fl >= 0 {
 				c.bad(P, "floor", key, p.instrPos(stopIf), fmt.Sprintf("a %s below %d is raised to %d instead of being refused with NFS3ERR_TOOSMALL: for such requests the encoded reply can exceed the limit the client gave", spec.limit, fl, fl))
@@ -259,6 +261,7 @@ func runC27(c *Ctx) {
 		return
 	}
 	runC27Truthful(c)
+	runC27DumpLive(c)
 	reach := p.reachableFrom([]*ssa.Function{hc})
 	isEntry := map[*ssa.Function]bool{hc: true}
 	fl := newFlow(p)
@@ -390,6 +393,7 @@ func runC28(c *Ctx) {
 	}
 	// speaking the protocol over TCP includes reading record marks that arrive in pieces (shared with C13)
 	runFullReadAs(c, P)
+	runAllFragmentsAs(c, P)
 	runC28Advertised(c)
 	// constructions: calls to NewServer in package (non-test)
 	for _, cs := range p.callers[ns] {
@@ -477,6 +481,7 @@ func runC30(c *Ctx) {
 	c.rule(P, "ca", "ClientCAs set from CAFile when client certificates are verified", 1)
 	c.rule(P, "rotate", "the TLSConfig returned through GetExportOptions shares the certificate cell the listener reads", 1)
 	runC30RotateUpdate(c)
+	runC30NoStaticCert(c)
 	val := p.Fn("(*TLSConfig).Validate")
 	bc := p.Fn("(*TLSConfig).BuildConfig")
 	if val == nil || bc == nil {
